@@ -13,6 +13,15 @@ from .path import BindingError, Obligation, Path, Unsupported, is_quantified
 from .stmt import NEXT, RAISE, RET, StmtMixin
 
 
+def _flatten_and(e):
+    if z3.is_app(e) and e.decl().kind() == z3.Z3_OP_AND:
+        out = []
+        for c in e.children():
+            out += _flatten_and(c)
+        return out
+    return [e]
+
+
 class Frame:
     def __init__(self, module, func, cls):
         self.module = module
@@ -50,6 +59,7 @@ class Executor(StmtMixin, ExprMixin, CallMixin, LibMixin):
         self.loop_ordinals = {}
         self.cls_preds = set()
         self.paths_explored = 0
+        self.ended_paths = []
         self.feas_calls = 0
 
     # ------------------------------------------------------------------ classes
@@ -212,7 +222,10 @@ class Executor(StmtMixin, ExprMixin, CallMixin, LibMixin):
                     pre = Ctx(self, p.with_heap(p.entry_heap), args)
                     self.oblige(p, f"must-raise:{exc}", sv.Not(cond(pre)), fi.node, assume=False)
                 if c.ensures is not None:
-                    self.oblige(p, "post", c.ensures(ctx, val), fi.node, assume=False)
+                    post = c.ensures(ctx, val)
+                    parts = _flatten_and(post)
+                    for pi, part in enumerate(parts, 1):
+                        self.oblige(p, "post" if len(parts) == 1 else f"post.{pi}", part, fi.node, assume=False)
             elif kind == RAISE:
                 allowed = None
                 for exc in sorted(c.raises):
@@ -229,6 +242,11 @@ class Executor(StmtMixin, ExprMixin, CallMixin, LibMixin):
                         self.frame_unchanged(p, c, node)
             else:
                 raise Unsupported(f"{kind} outside loop in {c.target}")
+            for ob in p.obls:
+                if id(ob) not in seen:
+                    seen.add(id(ob))
+                    obls.append(ob)
+        for p in self.ended_paths:
             for ob in p.obls:
                 if id(ob) not in seen:
                     seen.add(id(ob))
